@@ -203,7 +203,7 @@ CHECKS["C05"] = dict(
         ob("VH_C05_notify", dict(SHAPE=0, MAXB=1), covers=["unchanged", "changed", "dir-metadata-change", "dir-unchanged", "delete", "done"], bounds="source {d, e}"),
         ob("VH_C05_notify", dict(SHAPE=1, MAXB=2), covers=["unchanged", "changed", "done"], bounds="source {d, d/f}, files <=2 bytes"),
         ob("VH_C05_notify", dict(SHAPE=0, MAXB=0, TMP=1), covers=["unchanged", "changed", "delete", "done"], bounds="source {d, e}; stale destination entry may be named like the writer's temp files (.tmp.zz)"),
-        ob("VH_C05_notify", dict(SHAPE=0, MAXB=1, META=1), covers=["unchanged", "changed", "delete", "dir-chown", "done"], bounds="source {d, e}; prior destination also with 'same bytes, size and mtime but another owner' (pure metadata edit of a file) and 'same mode and mtime but another owner' (pure chown of a directory)"),
+        ob("VH_C05_notify", dict(SHAPE=0, MAXB=1, META=1), covers=["unchanged", "changed", "delete", "dir-chown", "other-mtime", "done"], bounds="source {d, e}; prior destination also with 'same bytes, size and mtime but another owner' (pure metadata edit of a file), 'same everything but an mtime one nanosecond later' (touch below the microsecond) and 'same mode and mtime but another owner' (pure chown of a directory)"),
         ob("VH_C05_notify", dict(SHAPE=0, MAXB=1, FILTER=1), covers=["unchanged", "changed", "delete", "done"], bounds="source {d, e}, receiver filter rewriting the group of every entry"),
         ob("VH_C05_notify", dict(SHAPE=2, MAXB=1), T, covers=["unchanged", "changed", "dir-metadata-change", "delete", "done"], bounds="source {d, d/f, e} incl. hard link"),
         ob("VH_C05_notify", dict(SHAPE=2, MAXB=1, FILTER=1), T, covers=["unchanged", "changed", "delete", "done"], bounds="source {d, d/f, e}, receiver filter rewriting the group"),
